@@ -94,7 +94,7 @@ def real_group(rec, modkey, group, quick, parts=("pairs", "scalars", "twist")):
     def L(Pt, scaled=False, inf_rep=None):
         if rep == "opt" and scaled:
             rec.case("rescaled", None, nontrivial=False)
-            return CG.to_lib(modkey, Pt, deg, rng, scale=CG.rand_scale(F, rng), inf_rep=inf_rep, fq_coeffs=(deg <= 2 and rng.random() < 0.1))
+            return CG.to_lib(modkey, Pt, deg, rng, scale=CG.rand_scale(F, rng), inf_rep=inf_rep)
         return CG.to_lib(modkey, Pt, deg, rng, inf_rep=inf_rep)
 
     small_mult = lambda lab: False
